@@ -2024,6 +2024,47 @@ func runP13(p *an.Prog, r *an.Result) {
 					alike = append(alike, x)
 				}
 			}
+			// ... or at every call site of this function, where rv and another parameter are handed two values
+			// whose kinds were found equal (mapKeyLess tests a.Kind() != b.Kind() and then calls the comparison)
+			if par, isPar := rv.(*ssa.Parameter); isPar && par.Parent() == fn {
+				pi := -1
+				for i, pp := range fn.Params {
+					if pp == par {
+						pi = i
+					}
+				}
+				sites := callSitesOf(p, fn)
+				for qi, q := range fn.Params {
+					if qi == pi || pi < 0 || !isPkgType(q.Type(), "reflect", "Value") || len(sites) == 0 {
+						continue
+					}
+					all := true
+					for _, site := range sites {
+						if pi >= len(site.Call.Args) || qi >= len(site.Call.Args) {
+							all = false
+							break
+						}
+						a1, a2 := site.Call.Args[pi], site.Call.Args[qi]
+						eq := false
+						for _, g := range an.GuardsAtInstr(site) {
+							b, ok := g.Cond.(*ssa.BinOp)
+							if !ok || !(b.Op == token.NEQ && !g.True || b.Op == token.EQL && g.True) {
+								continue
+							}
+							x, y := kindCallOn(b.X), kindCallOn(b.Y)
+							if x != nil && y != nil && (same(x, a1) && same(y, a2) || same(x, a2) && same(y, a1)) {
+								eq = true
+							}
+						}
+						if !eq {
+							all = false
+						}
+					}
+					if all {
+						alike = append(alike, q)
+					}
+				}
+			}
 			pred := func(cond ssa.Value, taken bool) bool {
 				if !taken {
 					return false
@@ -2526,8 +2567,10 @@ func computedSizeUnbounded(p *an.Prog, fn *ssa.Function, at ssa.Instruction, s s
 	}) {
 		return ""
 	}
-	// at every call site of fn, on the argument that is fn's receiver/parameter the size is computed from
-	if len(call.Call.Args) > 0 {
+	// at every call site of fn, on the argument that is fn's receiver/parameter the size is computed from -
+	// unless a template can call fn by name: a struct value offers its exported methods without arguments
+	// as properties, and that call goes through reflection past every call site
+	if len(call.Call.Args) > 0 && !invocableByName(fn) {
 		if par, ok := an.Deref(call.Call.Args[0]).(*ssa.Parameter); ok && par.Parent() == fn {
 			idx := -1
 			for i, pp := range fn.Params {
@@ -2557,6 +2600,20 @@ func computedSizeUnbounded(p *an.Prog, fn *ssa.Function, at ssa.Instruction, s s
 		}
 	}
 	return "computed by " + an.FuncName(callee) + " from its operands"
+}
+
+// invocableByName: an exported method of a struct type that takes no arguments and returns one or two
+// results - what structValue.invoke calls when a template asks for the property of that name.
+func invocableByName(fn *ssa.Function) bool {
+	recv := fn.Signature.Recv()
+	if recv == nil || fn.Object() == nil || !fn.Object().Exported() {
+		return false
+	}
+	if _, isStruct := derefT(recv.Type()).Underlying().(*types.Struct); !isStruct {
+		return false
+	}
+	n := fn.Signature.Results().Len()
+	return fn.Signature.Params().Len() == 0 && n >= 1 && n <= 2
 }
 
 // arithmeticOnFields: some result of f is a sum or difference whose operands include a field or parameter
@@ -2600,6 +2657,53 @@ func arithmeticOnFields(f *ssa.Function) bool {
 
 func init() {
 	register("P14", "reflect.Value.IsNil is called only on a value of a kind that can be nil (chan, func, interface, map, pointer, slice): established by a test of its kind, by what produced it (a method value, ValueOf of a statically nilable type), or at every call site of the function it is a parameter of; on any other kind IsNil panics", runP14)
+}
+
+// goValueNilable: on every path to at, the kind of the Go value gv - reflect.TypeOf(gv).Kind() or
+// reflect.ValueOf(gv).Kind() - was compared equal to a kind that can be nil, or gv's static type is one.
+func goValueNilable(at ssa.Instruction, gv ssa.Value) bool {
+	if mi, ok := gv.(*ssa.MakeInterface); ok {
+		switch mi.X.Type().Underlying().(type) {
+		case *types.Pointer, *types.Map, *types.Slice, *types.Chan, *types.Signature:
+			return true
+		}
+	}
+	same := func(x ssa.Value) bool { return sameValue(an.StripIface(x), an.StripIface(gv)) }
+	return an.AllPathsGuarded(at.Block(), func(cond ssa.Value, taken bool) bool {
+		b, ok := cond.(*ssa.BinOp)
+		if !ok || !(b.Op == token.EQL && taken || b.Op == token.NEQ && !taken) {
+			return false
+		}
+		for _, pair := range [][2]ssa.Value{{b.X, b.Y}, {b.Y, b.X}} {
+			k, isC := an.ConstInt(pair[1])
+			if !isC || !nilableKinds[k] || !isPkgType(pair[0].Type(), "reflect", "Kind") {
+				continue
+			}
+			for _, ko := range an.Origins(pair[0], an.StepValue) {
+				c := an.CallOf(ko)
+				if c == nil {
+					continue
+				}
+				switch an.CallName(c) {
+				case "(reflect.Value).Kind":
+					if vc := an.CallOf(c.Args[0]); vc != nil && an.CallName(vc) == "reflect.ValueOf" && same(vc.Args[0]) {
+						return true
+					}
+				case "(reflect.Type).Kind":
+					tv := c.Value
+					if !c.IsInvoke() && len(c.Args) > 0 {
+						tv = c.Args[0]
+					}
+					for _, to := range an.Origins(tv, an.StepValue) {
+						if tc := an.CallOf(to); tc != nil && an.CallName(tc) == "reflect.TypeOf" && same(tc.Args[0]) {
+							return true
+						}
+					}
+				}
+			}
+		}
+		return false
+	})
 }
 
 var nilableKinds = map[int64]bool{18: true, 19: true, 20: true, 21: true, 22: true, 23: true, 26: true}
@@ -2723,6 +2827,29 @@ func runP14(p *an.Prog, r *an.Result) {
 					switch mi.X.Type().Underlying().(type) {
 					case *types.Pointer, *types.Map, *types.Slice, *types.Chan, *types.Signature:
 						return "ValueOf a statically nilable type"
+					}
+				}
+			}
+		}
+		// (c') ValueOf a parameter: at every call site the Go value handed in was found to be of such a kind
+		if vc := an.CallOf(rv); vc != nil && an.CallName(vc) == "reflect.ValueOf" {
+			if par, ok := an.StripIface(vc.Args[0]).(*ssa.Parameter); ok && par.Parent() == fn {
+				idx := -1
+				for i, pp := range fn.Params {
+					if pp == par {
+						idx = i
+					}
+				}
+				sites := callSitesOf(p, fn)
+				if idx >= 0 && len(sites) > 0 {
+					all := true
+					for _, s := range sites {
+						if idx >= len(s.Call.Args) || !goValueNilable(s, s.Call.Args[idx]) {
+							all = false
+						}
+					}
+					if all {
+						return "at every call site the value handed in was found to be of a kind that can be nil"
 					}
 				}
 			}
